@@ -1,11 +1,15 @@
-import TxdbusModel.Wire.Infer
+import TxdbusModel.Wire.PyVal
 import TxdbusModel.Sig.Ty
 import TxdbusModel.Sig.Parse
 /-
-Spec side of variant type inference: the DBus *type* (a `Ty`, not a string) that a Python value built
-from the supported classes has, following the documented rules (wrapper classes select their type; a
-plain int the smallest of INT32 / INT64 / UINT64 holding it; containers are first-element based; a
-heterogeneous container carries variants).  `Proofs/Wire/Infer.lean` shows that the code model
+Type-level restatement of variant type inference: the DBus *type* (a `Ty`, not a string) that a Python
+value has under the documented rules (wrapper classes select their type; a plain int the smallest of
+INT32 / INT64 / UINT64 holding it; containers are first-element based; a container whose elements do not
+all have exactly the class of the first carries variants; no type for `()` or for a dict whose key type
+is not basic).  It is written against `PyVal` only (it does not import the code model Wire/Infer.lean) but
+it follows the same rules - it is NOT an independent specification of which type is "right"; what it adds
+is that the result is a `Ty` (so a single complete type by construction), on which well-formedness and
+conformance (Wire/Claim.lean) can be stated.  `Proofs/Wire/Infer.lean` shows that the code model
 `sigFromPy` returns exactly the rendering of this type.  Core Lean only.
 -/
 namespace Txdbus
@@ -24,6 +28,11 @@ def IntCls.basic? : IntCls → Option Basic
 def StrCls.basic : StrCls → Basic
   | .plain => .s | .signature => .g | .objectPath => .o
 
+/-- Every element has exactly the Python class `c` (subclass instances do not count). -/
+def sameClass (c : PyClass) (xs : List PyVal) : Bool := xs.all (fun e => e.pyType == c)
+
+def sameValueClass (c : PyClass) (kvs : List (PyVal × PyVal)) : Bool := kvs.all (fun kv => kv.2.pyType == c)
+
 mutual
 def inferTy : PyVal → Option Ty
   | .none => none
@@ -37,25 +46,26 @@ def inferTy : PyVal → Option Ty
   | .bytearray _ => some (.array (.basic .y))
   | .list [] => some (.array .variant)
   | .list (x :: xs) =>
-    if allInstances x.pyType xs then
+    if sameClass x.pyType xs then
       match inferTy x with
       | some t => some (.array t)
       | none => none
     else some (.array .variant)
-  | .tuple xs =>
-    match inferTys xs with
+  | .tuple [] => none                       -- DBus has no empty struct
+  | .tuple (x :: xs) =>
+    match inferTys (x :: xs) with
     | some ts => some (.struct ts)
     | none => none
   | .dict [] => some (.array (.dict (.basic .s) .variant))
   | .dict ((k, v) :: rest) =>
     match inferLastKey ((k, v) :: rest) with
-    | none => none
-    | some kt =>
-      if allValueInstances v.pyType rest then
+    | some (.basic kc) =>                    -- a dict entry key is a basic type
+      if sameValueClass v.pyType rest then
         match inferTy v with
-        | some vt => some (.array (.dict kt vt))
+        | some vt => some (.array (.dict (.basic kc) vt))
         | none => none
-      else some (.array (.dict kt .variant))
+      else some (.array (.dict (.basic kc) .variant))
+    | _ => none
   | .obj _ _ _ => none
   | .other _ => none
 def inferTys : List PyVal → Option (List Ty)
@@ -107,33 +117,6 @@ def builtinOnlys : List PyVal → Bool
 def builtinOnlyPairs : List (PyVal × PyVal) → Bool
   | [] => true
   | (k, v) :: rest => k.builtinOnly && v.builtinOnly && builtinOnlyPairs rest
-end
-
-/-- Python values that can be a DBus dict key: instances of bool, int, float, str (and wrappers). -/
-def PyVal.isScalarKey : PyVal → Bool
-  | .bool _ => true
-  | .int _ _ => true
-  | .float _ => true
-  | .str _ _ => true
-  | _ => false
-
-mutual
-/-- `builtinOnly`, and in addition the shape DBus can carry: no empty tuple (DBus has no empty
-struct), every dict key a scalar (DBus dict keys are basic types). -/
-def PyVal.encodableShape : PyVal → Bool
-  | .none => false
-  | .obj _ _ _ => false
-  | .other _ => false
-  | .list xs => encodableShapes xs
-  | .tuple xs => !xs.isEmpty && encodableShapes xs
-  | .dict kvs => encodableShapePairs kvs
-  | _ => true
-def encodableShapes : List PyVal → Bool
-  | [] => true
-  | x :: xs => x.encodableShape && encodableShapes xs
-def encodableShapePairs : List (PyVal × PyVal) → Bool
-  | [] => true
-  | (k, v) :: rest => k.isScalarKey && v.encodableShape && encodableShapePairs rest
 end
 
 /-- Not a bare dict entry. -/
